@@ -35,6 +35,13 @@ fn strat_c03_l2() -> BoxedStrategy<Driven> {
     case_strategy(Profile::Truncation, true, 30).prop_map(|case| Driven { driver: "L2".into(), case }).boxed()
 }
 
+fn strat_c02_roll() -> BoxedStrategy<Driven> {
+    roll_case_strategy(Profile::Durability).prop_map(|case| Driven { driver: "L2".into(), case }).boxed()
+}
+fn strat_c03_roll() -> BoxedStrategy<Driven> {
+    roll_case_strategy(Profile::Truncation).prop_map(|case| Driven { driver: "L2".into(), case }).boxed()
+}
+
 pub fn run_driven(d: &Driven, profile: Profile) -> CaseReport {
     if d.driver == "L2" {
         l2_case_report(&d.case, profile)
@@ -95,6 +102,19 @@ pub fn main(ctx: &Ctx, profile: Profile) -> i32 {
     let fail = match profile {
         Profile::Durability => run_cases(ctx, &stats, strat_c02_l2 as fn() -> _, n_l2, cores(), 1500, move |c| run_driven(c, Profile::Durability)),
         Profile::Truncation => run_cases(ctx, &stats, strat_c03_l2 as fn() -> _, n_l2, cores(), 1500, move |c| run_driven(c, Profile::Truncation)),
+    };
+    if fail.is_some() {
+        return finish(ctx, &stats, fin(), fail);
+    }
+    // real file roll-over scenarios (170k - 260k appends each, ~20 - 60 s): the first log file is filled up to a
+    // generated distance from the switch, then a short generated history works across it
+    if std::env::var("RNV_CASE_TIMEOUT_MS").is_err() {
+        std::env::set_var("RNV_CASE_TIMEOUT_MS", "900000");
+    }
+    let n_roll = ctx.tier.pick(4u32, 48u32);
+    let fail = match profile {
+        Profile::Durability => run_cases(ctx, &stats, strat_c02_roll as fn() -> _, n_roll, 8, 40, move |c| run_driven(c, Profile::Durability)),
+        Profile::Truncation => run_cases(ctx, &stats, strat_c03_roll as fn() -> _, n_roll, 8, 40, move |c| run_driven(c, Profile::Truncation)),
     };
     finish(ctx, &stats, fin(), fail)
 }
